@@ -480,4 +480,101 @@ def getToken (isRequest : Bool) (k : Key) (value : Val) (attrs : List (Key × Op
 /-- a document assembled by hand: `LRRP(document_id=…)` with `parts` appended -/
 def newDoc (docId : Nat) (parts : List Part) : Doc := ⟨docId, [], true, false, parts⟩
 
+/-! ## canonical documents (decidable predicates used by the theorems)
+
+A part / document is *canonical* when it is what the parser produces from canonical octets: the token is
+in the document's table, its fields are the definition's, the value has the shape and range of the
+token's type (one-septet fraction: `exp = 7`; no negative zero), every wire attribute is present in
+table order with an in-range value. -/
+
+/-- a float with a one-septet fraction: `± (i + f/128)` stored as `⟨neg, i·128 + f, 7⟩` -/
+def dyOk (signed : Bool) (d : Dy) : Bool :=
+  d.exp == 7 && decide (d.num / 128 ≤ (if signed then SINTVAR_MAX else UINTVAR_MAX))
+    && (signed || !d.neg) && !(d.neg && d.num == 0)
+
+/-- the attribute instances of an attribute-prefixed token: one per attribute id, in order -/
+def attrsOk (atbl : List AttrTok) : List Nat → List AttrRef → Bool
+  | [], [] => true
+  | i :: ids, .inst a :: as =>
+    a.id == i && decide (a.value ≤ UINTVAR_MAX) && (lookupAttr atbl i).isSome && attrsOk atbl ids as
+  | _, _ => false
+
+def valueOk (atbl : List AttrTok) (tc : ElemTok) (p : Part) : Bool :=
+  let ids := tc.attrs.map AttrRef.id
+  match tc.ty, p.value with
+  | .OPAQUE_I, .bytes b =>
+    match tc.length with
+    | some (n + 1) => b.length == n + 1 && p.attrs == ids
+    | some 0 => b == [] && p.attrs == ids
+    | none =>
+      decide (b.length ≤ UINTVAR_MAX)
+        && (if tc.attrs.isEmpty then p.attrs == ids else attrsOk atbl tc.attrs p.attrs)
+  | .INFO_TIME, .bytes b => b.length == 5 && p.attrs == ids
+  | .UINT8, .nat n => decide (n < 256) && p.attrs == ids
+  | .NO_VALUE, .none => p.attrs == ids
+  | .UFLOATVAR, .float d => dyOk false d && p.attrs == ids
+  | .SFLOATVAR, .float d => dyOk true d && p.attrs == ids
+  | .UINTVAR, .nat n => decide (n ≤ UINTVAR_MAX) && p.attrs == ids
+  | .CIRCLE_2D, .circle la lo r => la.length == 4 && lo.length == 4 && dyOk false r && p.attrs == ids
+  | .POINT_2D, .point2 la lo => la.length == 4 && lo.length == 4 && p.attrs == ids
+  | .POINT_3D, .point3 la lo a => la.length == 4 && lo.length == 4 && dyOk true a && p.attrs == ids
+  | _, _ => false
+
+/-- canonical part of a document with element table `etbl` and attribute table `atbl` -/
+def partOk (etbl : List ElemTok) (atbl : List AttrTok) (p : Part) : Bool :=
+  match lookupElem etbl p.tokenId with
+  | none => false
+  | some tc =>
+    decide (p.tokenId < 128) && p.ty == tc.ty && p.length == tc.length && valueOk atbl tc p
+
+/-- the octets of the document body (`constant table part ++ parts`) -/
+def bodyOf (d : Doc) : R Bytes :=
+  match writeCdt d with
+  | .error e => .error e
+  | .ok c =>
+    match writeParts d.parts with
+    | .error e => .error e
+    | .ok ps => .ok (c ++ ps)
+
+/-- canonical document, given the document before it in the buffer: an LRRP id; an NCDT id uses the
+default table; any other id either inherits (`CDT_LEN = 1`, table and flag of the predecessor) or
+carries an inline table whose length is not 1; canonical parts; the body fits a uintvar length -/
+def docOk (prev : Option Doc) (d : Doc) : Bool :=
+  match configOf d.id with
+  | .error _ => false
+  | .ok (di, cfg) =>
+    decide (d.id ≤ UINTVAR_MAX) && d.parts.all (partOk cfg.etbl cfg.atbl)
+      && (if di.ncdt then d.cdtDefault && !d.cdtInherited
+          else if d.cdtInherited then
+            (match prev with
+             | some p => d.cdt == p.cdt && d.cdtDefault == p.cdtDefault
+             | none => d.cdt == [] && d.cdtDefault)
+          else !d.cdtDefault && d.cdt.length != 1 && decide (d.cdt.length ≤ UINTVAR_MAX))
+      && (match bodyOf d with
+          | .ok b => decide (b.length ≤ UINTVAR_MAX)
+          | .error _ => false)
+
+/-- canonical documents of one buffer -/
+def docsOk : Option Doc → List Doc → Bool
+  | _, [] => true
+  | prev, d :: ds => docOk prev d && docsOk (some d) ds
+
+/-- what the parser makes of a document: for an NCDT id the constant table is the default one
+(`as_bytes` writes nothing for it, whatever the document object holds) -/
+def normDoc (d : Doc) : Doc :=
+  match configOf d.id with
+  | .ok (di, cfg) => if di.ncdt then { d with cdt := buildConstants cfg.consts } else d
+  | .error _ => d
+
+/-- `as_bytes` of every document, concatenated -/
+def asBytesAll : List Doc → R Bytes
+  | [] => .ok []
+  | d :: ds =>
+    match asBytes d with
+    | .error e => .error e
+    | .ok b =>
+      match asBytesAll ds with
+      | .error e => .error e
+      | .ok bs => .ok (b ++ bs)
+
 end Dmr.Lrrp
